@@ -15,6 +15,37 @@ def alloc_func(ctx):
     return cands[0]
 
 
+def helper_with_effects(ctx, f, callee):
+    if callee.cls != f.cls or not callee.name.startswith("_") or callee.name.endswith("__"):
+        return False
+    return any(e.kind in ("store", "mut", "del") for g in ctx.eff.reachable([callee], precise=True) for e in ctx.eff.of(g))
+
+
+def alloc_inline(ctx, extra=None):
+    """Inline policy for interpreting the allocator on a small model: its effectful private helpers (+ what `extra` accepts)."""
+    f = alloc_func(ctx)
+
+    def pol(call, callee, depth):
+        return helper_with_effects(ctx, f, callee) or (extra is not None and extra(call, callee, depth))
+    return pol
+
+
+def alloc_region(ctx):
+    """The allocator and the private helpers it is split into (the functions whose AST the order-provenance rules read)."""
+    f = alloc_func(ctx)
+    out, todo = [], [f]
+    while todo:
+        g = todo.pop()
+        if any(g.node is x.node for x in out):
+            continue
+        out.append(g)
+        for cs in ctx.eff.calls_of(g):
+            for c in cs.callees:
+                if cs.resolved and helper_with_effects(ctx, f, c):
+                    todo.append(c)
+    return out
+
+
 def permutation_sorters(ctx):
     """Module-level sort functions that return a sorted permutation of their first parameter for every rule member (R11.1)."""
     from .sorters import is_permutation_sorter, mode_param
@@ -40,9 +71,11 @@ def alloc_trace(ctx):
         return None
 
     def pol(call, callee, depth):
-        return False
+        # private helpers of the allocator's class that *do* something (a block of the allocator extracted into a method) are
+        # followed; pure predicates (the targeting helpers) stay opaque: their truth is tracked as a fact
+        return helper_with_effects(ctx, f, callee)
 
-    I = mk_interp(ctx, inline=pol, call_hook=hook, max_paths=6000)
+    I = mk_interp(ctx, inline=pol, auto_helpers=False, call_hook=hook, max_paths=6000)
     outs = I.run_function(f, bind={"__defaults__": True})
     normal = [st for st, ex in outs if ex is None or ex[0] == "return" and not any(isinstance(e, Loop) and any(x is not None and x[0] == "return" for _t, x in e.alts) for e in st.trace)]
     if not normal:
